@@ -22,7 +22,10 @@ META = {
             "(exact model, or class predicate select/forward/normal/pieces, + direct 'no data metacharacter in a Safe "
             "result' oracle); generated multi-template programs sent as AST to execProg, engine output byte-equal, no raw "
             "metacharacter, capture wrappers render identically; autoescape-region and template-name probes through "
-            "execProg; all Unicode scalars through upper/lower/capitalize.",
+            "execProg; values of every ValueRepr kind (bytes valid/invalid UTF-8, floats, 128-bit integers, objects with "
+            "their own render, containers of them) through every printing path (stream K) and every stringifying filter; "
+            "the write_escaped dispatch and the ValueRepr/as_str tables regenerated from source and compared with the model; "
+            "all Unicode scalars through upper/lower/capitalize; 20k random floats through the number formatter.",
     "design_ref": "DESIGN.md §3 C02",
     "level_note": "Trusted: Lean kernel; hand transcription of utils.rs/output.rs/argtypes.rs/filters.rs/pycompat.rs safety "
                   "branches and of the vm's mode/capture handling into MJ/Model/Safe.lean and MJ/Model/SafeProg.lean "
@@ -51,16 +54,23 @@ def dec(cps):
 
 
 def parse_enc(s):
-    """encoded value → list of (safe, text) string leaves (map keys included)"""
+    """encoded value → list of (safe, text) leaves: strings (map keys included); bytes, objects and
+    floats count as unmarked leaves tagged with their kind"""
     leaves = []
     i, n = 0, len(s)
     while i < n:
-        if s.startswith("S1:", i) or s.startswith("S0:", i):
-            safe = s[i + 1] == "1"
-            j = i + 3
-            while j < n and (s[j].isdigit() or s[j] in ".-"):
+        tag = s[i:i + 3] if s[i:i + 3] in ("S1:", "S0:") else (s[i:i + 2] if s[i:i + 2] in ("Y:", "O:", "F:") and (i == 0 or s[i - 1] in "(;=") else None)
+        if tag:
+            j = i + len(tag)
+            while j < n and (s[j].isdigit() or s[j] in ".,-"):
                 j += 1
-            leaves.append((safe, dec(s[i + 3:j])))
+            body = s[i + len(tag):j]
+            if tag[0] == "S":
+                leaves.append((tag == "S1:", dec(body)))
+            elif tag == "Y:":
+                leaves.append((False, "bytes:" + bytes(int(x) for x in body.split(",") if x not in ("", "-")).decode("utf-8", "replace")))
+            else:
+                leaves.append((False, ("obj:" if tag == "O:" else "float:") + dec(body)))
             i = j
         else:
             i += 1
@@ -192,12 +202,12 @@ def run(r):
                 r.broken.append(f"stream C case for `{name}` has class {cls} but no exact model")
             if len(r.samples) < 4 and i % 500 == 7:
                 r.sample({"filter_call": c["expr"], "args": c["args"], "engine": rf[1]})
-        elif s == "P":
+        elif s in ("P", "K"):
             for ft in c["feats"]:
-                r.hist["program_features"][ft] += 1
+                r.hist["program_features" if s == "P" else "kind_probe"][ft] += 1
             r.hist["template_name"][c["main"]] += 1
             okp = rf[0] == "OK"
-            r.count("P:" + json.dumps(c["t"], sort_keys=True) + json.dumps(c["ctx"], sort_keys=True), okp and rf[2] != "-")
+            r.count(s + ":" + json.dumps(c["t"], sort_keys=True) + json.dumps(c["ctx"], sort_keys=True), okp and rf[2] != "-")
             if not okp:
                 r.hist["program_errors"][rf[0]] += 1
                 if m is None or m[0] != "ERR":
@@ -208,7 +218,7 @@ def run(r):
             if raw:
                 r.oracle_failure(cj, f"output of a safe-marking-free program contains raw {''.join(raw)!r} "
                                      f"(template text has none): …{text[max(0, text.index(raw[0]) - 20):text.index(raw[0]) + 20]!r}…",
-                                 "program:raw-metachar")
+                                 "program:raw-metachar" if s == "P" else f"print:{c['kind']}:{c['probe']}")
             if m is None or m[0] != "OK" or m[2] != rf[2]:
                 mt = dec(m[2]) if m is not None and m[0] == "OK" else None
                 if mt is not None and len(text) > len(mt) and text.count("&amp;") > mt.count("&amp;"):
